@@ -18,6 +18,7 @@
 package trace
 
 import (
+	"bytes"
 	"context"
 	"fmt"
 	"maps"
@@ -673,6 +674,11 @@ func mustDecodeTagValueAndArray(valueType pbv1.ValueType, value []byte, valueArr
 			next int
 			err  error
 		)
+		// UnmarshalVarArray removes escape bytes in place: a stored value that carries one is decoded from a copy, the
+		// block's column buffer is read again by later decodes of the same value.
+		if bytes.IndexByte(value, encoding.Escape) >= 0 {
+			value = bytes.Clone(value)
+		}
 		for idx := 0; idx < len(value); idx = next {
 			end, next, err = encoding.UnmarshalVarArray(value, idx)
 			if err != nil {
